@@ -45,7 +45,8 @@ def runs(flags):
     return out
 
 
-def classify_stretch(samples, step, s, j, jump_threshold=None):
+def classify_stretch(samples, step, s, j, jump_threshold=None,
+                     float_increments=False):
     """Model of one gap-free stretch.
 
     samples: [(epoch, rain, zeta)]; returns a dict with storms, rises,
@@ -59,7 +60,11 @@ def classify_stretch(samples, step, s, j, jump_threshold=None):
     z = [F(v) for _, _, v in samples]
     thr = F(j) * F(step, 3600) if jump_threshold is None else jump_threshold
     heavy = [r > F(s) for r in rain]
-    inc = [z[i + 1] - z[i] for i in range(n - 1)]
+    if float_increments:
+        # increments as any double-precision implementation forms them
+        inc = [F(float(z[i + 1]) - float(z[i])) for i in range(n - 1)]
+    else:
+        inc = [z[i + 1] - z[i] for i in range(n - 1)]
     jump = [d > thr for d in inc]
     storm_runs = runs(heavy)
     rise_runs = runs(jump)
